@@ -165,6 +165,8 @@ type loopInfo struct {
 	node     ast.Node // *ast.ForStmt or *ast.RangeStmt
 	modAlloc map[*ssa.Alloc]bool
 	modFam   map[string]bool // heap family prefixes stored to ("*" = everything)
+	modObj   map[*ssa.Alloc]bool // object allocs (declared outside the loop) written in the loop
+	modGhost map[string]bool
 	calls    bool
 	headState *State
 	variant  CVal
@@ -278,26 +280,43 @@ func rootAlloc(v ssa.Value) *ssa.Alloc {
 func (fx *FnExec) analyseLoop(fr *frame, li *loopInfo) {
 	li.modAlloc = map[*ssa.Alloc]bool{}
 	li.modFam = map[string]bool{}
+	li.modObj = map[*ssa.Alloc]bool{}
+	li.modGhost = map[string]bool{}
+	inLoop := func(a *ssa.Alloc) bool { return li.body[a.Block()] }
+	// addrEffect records the effect of a write through addr
+	addrEffect := func(addr ssa.Value) {
+		if a, ok := addr.(*ssa.Alloc); ok && fx.isLocalCell(a) {
+			li.modAlloc[a] = true
+			return
+		}
+		if root := rootAlloc(addr); root != nil && !fx.isLocalCell(root) {
+			if inLoop(root) {
+				if !allocEscapes(root) {
+					return // object private to one iteration: invisible at the loop head
+				}
+			} else {
+				li.modObj[root] = true
+				return
+			}
+		}
+		fx.storeFamilies(addr, li.modFam)
+	}
 	for b := range li.body {
 		for _, ins := range b.Instrs {
 			switch x := ins.(type) {
 			case *ssa.Store:
-				if a, ok := x.Addr.(*ssa.Alloc); ok && fx.isLocalCell(a) {
-					li.modAlloc[a] = true
-					continue
-				}
-				fx.storeFamilies(x.Addr, li.modFam)
+				addrEffect(x.Addr)
 			case *ssa.Alloc:
 				if fx.isLocalCell(x) {
 					li.modAlloc[x] = true
-				} else {
+				} else if allocEscapes(x) {
 					t := x.Type().(*types.Pointer).Elem()
 					fx.typeFamilies(t, li.modFam)
 				}
 			case *ssa.MapUpdate:
 				li.modFam["map"] = true
 			case *ssa.Call:
-				fx.callFamilies(fr, x.Common(), li.modFam)
+				fx.callEffects(fr, x.Common(), li, addrEffect)
 			case *ssa.Defer:
 				li.modFam["*"] = true
 			case *ssa.Go:
@@ -312,6 +331,48 @@ func (fx *FnExec) analyseLoop(fr *frame, li *loopInfo) {
 			}
 		}
 	}
+}
+
+// allocEscapes: the address of an object Alloc (or of a part of it) is used other than for
+// loads, stores into it, and address arithmetic.
+func allocEscapes(a *ssa.Alloc) bool {
+	seen := map[ssa.Value]bool{}
+	var esc func(v ssa.Value) bool
+	esc = func(v ssa.Value) bool {
+		if seen[v] {
+			return false
+		}
+		seen[v] = true
+		refs := v.Referrers()
+		if refs == nil {
+			return true
+		}
+		for _, r := range *refs {
+			switch x := r.(type) {
+			case *ssa.DebugRef:
+			case *ssa.Store:
+				if x.Val == v {
+					return true
+				}
+			case *ssa.UnOp:
+				if x.Op != token.MUL {
+					return true
+				}
+			case *ssa.FieldAddr:
+				if esc(x) {
+					return true
+				}
+			case *ssa.IndexAddr:
+				if x.X == v && esc(x) {
+					return true
+				}
+			default:
+				return true
+			}
+		}
+		return false
+	}
+	return esc(a)
 }
 
 // storeFamilies records which heap families a store through addr may change.
